@@ -48,6 +48,8 @@ func boundsProjects(c *core.Ctx, n, years int) []*gen.Project {
 	// groundwater histories on soils with explicit hydraulic parameters: the field capacity the bound is judged
 	// against is itself judged against the values of the soil file (a function of the level)
 	ps = append(ps, gwProjects(c, c.Pick(6, 18), years, 680)...)
+	// finiteness of the whole state where the day length clamps (polar day / night)
+	ps = append(ps, polarMatrix(c, c.Pick(4, 16), 690)...)
 	return ps
 }
 
@@ -113,6 +115,33 @@ func etProjects(c *core.Ctx, n, years int) []*gen.Project {
 	return ps
 }
 
+// polarMatrix: one-year runs beyond the polar circles for every ET method that uses the extraterrestrial radiation
+// (3, 4, and 2 without a radiation column) x radiation measured (zero in the polar night) / estimated from sunshine
+// hours x a winter crop on the field in the polar night / bare soil: the four sibling branches of the ET routine.
+func polarMatrix(c *core.Ctx, n int, salt int64) []*gen.Project {
+	var ps []*gen.Project
+	for i := 0; i < n; i++ {
+		r := rngFor(c, salt+int64(i))
+		et := []int{3, 3, 3, 3, 4, 4, 2, 4}[i%8]
+		norad := []bool{true, true, false, false, true, true, true, false}[i%8]
+		bare := []bool{false, true, false, true, false, true, false, false}[i%8]
+		o := gen.Opts{Years: 2, MinLayers: 4, MaxLayers: 14, ETMethods: []int{et}, Layouts: []int{1, 0, 2}, PolarLat: true, NoRad: norad,
+			WinterCrops: !bare, NoCrops: bare, ColdWinters: i%3 == 0}
+		p := gen.Random(r, fmt.Sprintf("p%d_%d", c.Seed, i), o)
+		p.Cfg.Lat100 = []int{6700, 6965, 7200, 7800}[(i/8+i)%4]
+		if p.Weather.HasRad {
+			for k := range p.Weather.Days {
+				if d := gen.Doy(p.Weather.First + k); d > 325 || d < 20 {
+					p.Weather.Days[k].Rad = 0
+				}
+			}
+		}
+		p.Arms = []string{fmt.Sprintf("polarMatrix etpot=%d norad=%v bare=%v lat=%d", et, norad, bare, p.Cfg.Lat100)}
+		ps = append(ps, p)
+	}
+	return ps
+}
+
 func checkC08(c *core.Ctx) {
 	c.Assume = append(c.Assume,
 		"potential ET of the day is the increment of the cumulative potential-ET counter across the ET routine; 'under a crop' is taken as the routine decides it",
@@ -122,7 +151,9 @@ func checkC08(c *core.Ctx) {
 		c.Machineryf("%v", err)
 		return
 	}
-	ps := runOrReplay(c, func() []*gen.Project { return etProjects(c, c.Pick(10, 100), c.Pick(2, 3)) })
+	ps := runOrReplay(c, func() []*gen.Project {
+		return append(etProjects(c, c.Pick(10, 100), c.Pick(2, 3)), polarMatrix(c, c.Pick(4, 16), 880)...)
+	})
 	var wg sync.WaitGroup
 	if c.Replay == "" {
 		wg.Add(2)
